@@ -169,6 +169,7 @@ def check(spec, tier, seed, replay=None):
     t0 = time.time()
     pid = spec["id"]
     rng = random.Random(seed)
+    comp_ties = []
     broken = []
     if replay:
         ok, out = C.build_harness()
@@ -222,6 +223,14 @@ def check(spec, tier, seed, replay=None):
                     diffs = [l for l in out_i.splitlines() if l.split(" ", 1)[0] in ("ADDED", "REMOVED", "CHANGED")]
                     broken.append("structure: the panic sites of the modelled sources differ from site_inventory.json (%d differences): %s"
                                   % (len(diffs), "; ".join(diffs[:6])))
+            for cid in spec.get("components", []):
+                # the lockstep differential of a component this property's statement rests on
+                from . import component as CO, props as PR
+                ct = CO.component_tie(PR.SPECS[cid], tier, seed)
+                comp_ties.append(ct)
+                if ct["disagreements"]:
+                    broken.append("correspondence (component %s, shared with %s): model and implementation disagree on %d of %d cases; first: %s"
+                                  % (ct["component"], cid, ct["disagreements"], ct["cases"], (ct["first"] or {}).get("case", "")[:300]))
             accname = spec.get("acceptor")
             if accname:
                 a = summ.get("acceptors", {}).get(accname, {"traces": 0, "events": 0, "rejects": []})
@@ -292,6 +301,7 @@ def check(spec, tier, seed, replay=None):
             "p_traces_total": summ.get("pel_traces", 0) if spec.get("acceptor") else None,
             "p_events": summ.get("pel_events", 0) if spec.get("acceptor") else None,
             "incoq_vm_compute_cases": n_coq,
+            "component_ties": comp_ties,
             "call_histogram": summ["hist"], "class_histogram_top": summ["class_hist"],
             "implementation_panics_by_location": summ["panics"],
             "explanation": spec["explanation"],
